@@ -69,6 +69,22 @@ Proof.
     exfalso. apply N. now right.
 Qed.
 
+(** The exception needs outside help.  With a single workspace, an unchanged
+    [immutable_heads()] configuration and a mutable working-copy commit at the start, every
+    operation leaves the working-copy commit mutable (checked on every observed step), so in
+    no accepted run is any visible immutable commit ever recorded as rewritten or hidden. *)
+Theorem C42_single_workspace_clean : forall (evs : list event) (r r' : repo) (e : hexpr) (ws : N),
+  wf_graph (r_graph r) ->
+  (forall ev, In ev evs -> e_cfg ev = e /\ e_ws ev = ws /\ e_cmd ev <> CWorkspaceAdd) ->
+  (forall w, wc_of (r_view r) ws = Some w -> immb (r_graph r) (r_view r) e w = false) ->
+  run r evs = Some r' ->
+  run_prop (fun r ev =>
+    e_status ev = 0%N ->
+    forall x, In x (vis_list (r_graph r) (r_view r)) ->
+      immb (r_graph r) (r_view r) (e_cfg ev) x = true ->
+      ~ (In x (e_rewritten ev) \/ visb (r_graph r ++ e_new ev) (e_view ev) x = false)) r evs.
+Proof. exact run_untouched. Qed.
+
 (** A command succeeds only if every commit it passes to [check_rewritable] is mutable; a
     refusal names an immutable target; a refused or failed command adds no operation and
     leaves view and store alone. *)
@@ -176,4 +192,5 @@ Proof. vm_compute. repeat split; eauto. Qed.
 
 Print Assumptions C42_no_rewrite.
 Print Assumptions C42_accepted_runs_ok.
+Print Assumptions C42_single_workspace_clean.
 Print Assumptions C42_full_refuted.
